@@ -53,11 +53,16 @@ class InterestTreeNode:
             PendingIntEntry(future, param.lifetime,
                             param.can_be_prefix, param.must_be_fresh, implicit_sha256))
 
-    def nack_interest(self, nack_reason: int) -> bool:
+    def nack_interest(self, nack_reason: int, implicit_sha256: BinaryStr = b'') -> bool:
+        # A Nack names one Interest name: entries filed here under another implicit digest (or none) are not concerned
+        remaining = []
         for entry in self.pending_list:
-            if not entry.future.done():
+            if bytes(entry.implicit_sha256) != bytes(implicit_sha256):
+                remaining.append(entry)
+            elif not entry.future.done():
                 entry.future.set_exception(InterestNack(nack_reason))
-        return True
+        self.pending_list = remaining
+        return not remaining
 
     def satisfy(self, data: DataTuple, is_prefix: bool) -> bool:
         unsatisfied_entries = []
